@@ -30,6 +30,7 @@ const smtPrelude2 = `(declare-const ABSENTROW Row)
 (declare-fun collid (Str Str) Int)
 (declare-fun j.ofstr (Str) JsonV)
 (declare-fun j.ofint (Int) JsonV)
+(declare-fun j.ofbool (Bool) JsonV)
 (declare-fun j.ofbytes (Bytes) JsonV)
 (declare-fun j.ofmap ((Array Str JsonV)) JsonV)
 (declare-fun j.asmap (JsonV) (Array Str JsonV))
